@@ -110,6 +110,15 @@ ht2mjd(const unsigned int *cal, size_t nm, struct ymd_s h)
 	return MT(cal)[i] + (h.d - 1U);
 }
 
+static inline __attribute__((const, pure)) int
+hij_yoff(hij_typ_t t, int k)
+{
+/* number of days in a 30 year cycle before year K, rounded towards
+ * minus infinity, the shift of type IV is negative */
+	const int x = k * 1063100 + (int)tsh[t];
+	return x >= 0 ? x / 3000 : -((2999 - x) / 3000);
+}
+
 static inline __attribute__((const, pure)) mjd_t
 hij2mjd(hij_typ_t t, hij_epo_t e, struct ymd_s h)
 {
@@ -119,7 +128,7 @@ hij2mjd(hij_typ_t t, hij_epo_t e, struct ymd_s h)
 	const unsigned int doy = m[h.m] + h.d;
 	const unsigned int cyc = h.y / 30U;
 	const unsigned int k = h.y % 30U;
-	const unsigned int z1 = cyc * 10631U + (k * 1063100U + tsh[t]) / 3000U + doy;
+	const unsigned int z1 = cyc * 10631U + hij_yoff(t, k) + doy;
 	return z1 + epo[e] - 2400000U;
 }
 
@@ -181,15 +190,27 @@ static inline __attribute__((const, pure)) struct ymd_s
 mjd2hij(hij_typ_t t, hij_epo_t e, mjd_t j)
 {
 /* integer only version of Gent's converter */
-	const unsigned int z = j + 2400000U - epo[e];
+	const int s0 = hij_yoff(t, 0);
+	/* days since the first day of the first cycle, 0-based */
+	const unsigned int z = j + 2400000U - epo[e] - s0 - 1U;
 	const unsigned int cyc = z / 10631U;
-	const unsigned int z1 = z % 10631U;
-	const unsigned int k = (3000U * z1 - tsh[t]) / 1063100U - !z1;
-	const unsigned int z2 = z1 - (((int)k * 1063100 + tsh[t]) / 3000) + !z1;
+	/* want K such that hij_yoff(K) <= z1 < hij_yoff(K + 1) */
+	const int z1 = (int)(z % 10631U) + s0;
+	int k = (3000 * (z1 + 1) - (int)tsh[t]) / 1063100;
+	unsigned int z2, y, m, d;
+
+	for (; k > 0 && hij_yoff(t, k) > z1; k--);
+	for (; k < 29 && hij_yoff(t, k + 1) <= z1; k++);
+	/* day of the year, 1-based */
+	z2 = z1 - hij_yoff(t, k) + 1;
 	/* output */
-	const unsigned int y = 30U * cyc + k;
-	const unsigned int m = (10000U * z2 + 285001U) / 295000U;
-	const unsigned int d = z2 - (295001 * m - 290000U) / 10000U;
+	y = 30U * cyc + k;
+	m = (10000U * z2 + 285001U) / 295000U;
+	if (UNLIKELY(m > 12U)) {
+		/* 30th of Dhu al-Hijjah in intercalary years */
+		m = 12U;
+	}
+	d = z2 - (295001 * m - 290000U) / 10000U;
 	return (struct ymd_s){y, m, d};
 }
 
@@ -223,15 +244,13 @@ __ndim_greg(unsigned int y, unsigned int m)
 static __attribute__((const, pure)) inline bool
 __hij_inty_p(hij_typ_t t, hij_epo_t UNUSED(e), unsigned int y)
 {
-/* do a trial conversion to mjd and back, see whether we end up with Dhu 30
+/* intercalary years have 355 days
  * type I:   2, 5, 7, 10, 13, 15, 18, 21, 24, 26 & 29 as intercalary years
  * type II:  2, 5, 7, 10, 13, 16, 18, 21, 24, 26 & 29 as intercalary years
  * type III: 2, 5, 8, 10, 13, 16, 19, 21, 24, 27 & 29 as intercalary years
  * type IV:  2, 5, 8, 11, 13, 16, 19, 21, 24, 27 & 30 as intercalary years */
-	const unsigned int k = y % 30U;
-	const unsigned int z1 = ((k * 1063100U + tsh[t]) / 3000U + 355U) % 10631U;
-	const unsigned int kr = (3000U * z1 - tsh[t]) / 1063100U - !z1;
-	return z1 - (((int)kr * 1063100 + tsh[t]) / 3000) + !z1 != 1;
+	const int k = y % 30U;
+	return hij_yoff(t, k + 1) - hij_yoff(t, k) == 355;
 }
 
 static __attribute__((const, pure)) inline unsigned int
